@@ -113,6 +113,7 @@ fn argu(args: &[String], name: &str, def: u64) -> u64 {
 
 pub fn run_case(p: &Profile, seed: u64, run: u64, ov: &Override, want_case: bool) -> RunOut {
     crate::props::PANIC_CTX.with(|c| c.borrow_mut().clear());
+    crate::props::CURRENT_PROP.with(|c| c.set(p.id));
     match p.kind {
         Kind::Engine => props::run_engine(p, seed, run, ov, want_case),
         Kind::Crash => crashrun::run_crash(p, seed, run, ov, want_case),
